@@ -16,10 +16,11 @@ def record_detrend(spec):
     import speckit
     rng = np.random.default_rng(spec["seed"])
     N = spec["N"]
-    x = rng.standard_normal(N)
-    y = 0.4 * x + rng.standard_normal(N)
+    u = float(spec.get("unit", 1.0))         # physical unit of the record: the statement is scale free (1.0 or 2^-80: samples ~1e-24, trend ~1e-21)
+    x = rng.standard_normal(N) * u
+    y = 0.4 * x + rng.standard_normal(N) * u
     t = np.arange(N) / N
-    amp = 1000.0
+    amp = 1000.0 * u
     ev = []
     kw = dict(scheduler=spec["sched"], backend=spec["backend"], Jdes=spec["Jdes"], Kdes=spec["Kdes"], Lmin=spec["Lmin"], olap=spec["olap"])
     if spec["win"] == "kaiser":
@@ -82,7 +83,7 @@ def run(tier):
         specs.append(dict(seed=rnd.randrange(2 ** 31), N=rnd.choice([2000, 5000]), sched=sch, backend=["numba", "numpy"][(k // 4) % 2],
                           win=["kaiser", "hann"][k % 2], psll=rnd.choice([100, 200]), Jdes=rnd.choice([20, 40]), Kdes=rnd.choice([4, 10]),
                           Lmin=1 if sch == "lpsd" else rnd.choice([1, 16]), olap=0.5, orders=[1, 2, 0, -1] if k % 2 == 0 else [2, 1, -1, 0],
-                          modes=["csd"] if k % 3 else ["auto", "csd"]))
+                          modes=["csd"] if k % 3 else ["auto", "csd"], unit=2.0 ** -80 if (k % 4) in (1, 2) else 1.0))
     trs = common.pmap(record_detrend, specs, chunksize=1)
     vd, tres = traces.validate("DetrendTrace", f"{PID}_trace", trs)
     V.model(tres, "DetrendTrace.tla (metamorphic runs through the analyzer)")
